@@ -228,6 +228,7 @@ def c05(ctx):
                 ok = is_lin(v) and (any(cval(x['val']) == 0 and x['off'] == v for x in wr_) or any(x['off'].addc(1) == v for x in wr_)
                                     or (not v.is_const() and any(x['off'].terms == v.terms for x in wr_)))
                 ctx.check('length', ok, _ob_site(e), 'the length handed to the variable callback (%s) is not the decoded length' % (v,))
+    _grammar(ctx, ('hexbuf', 'string'))
     return ctx
 
 
@@ -314,6 +315,7 @@ def c04(ctx):
             ctx.check('exact', is_lin(v) and len(v.terms) == 1 and v.terms[0][1] == 1 and v.const == 0, _ob_site(e), 'the stored value %s is not the parsed value' % (v,))
     if len(table) < 6:
         raise AnalysisBroken('fewer than six numeric store sites found in the validators')
+    _grammar(ctx, ('int', 'uint', 'hex'))
     return ctx
 
 
@@ -511,3 +513,54 @@ def _access_predicate_table(ctx):
 
 
 RULES = {'C03': c03, 'C04': c04, 'C05': c05, 'C06': c06, 'C08': c08}
+
+
+# ------------------------------------------------------------------------------------- grammar (C04, C05)
+def _grammar(ctx, kinds):
+    """the decoders of the given kinds accept exactly the language of the property, for texts of every length"""
+    from . import dfa
+    m = ctx.model
+    E = m.prog.enums
+    decs = dfa.find_decoders(m.prog)
+    if len(decs) < 5:
+        raise AnalysisBroken('anchor vanished: only %d argument decoders found (%s)' % (len(decs), decs))
+    # which decoder serves which variable type: from the dispatch in the write-argument step
+    ex, ts = _decode_transitions(ctx)
+    by_type = {}
+    for t in ts:
+        for e in t.evs('switch'):
+            pass
+    from .interp import trace_paths
+    for t in ts:
+        for seq in trace_paths(t.t['trace'], limit=20000):
+            lab = None
+            for e in seq:
+                if e['k'] == 'switch' and is_lin(e['value']) and e['value'].single() and e['value'].single()[0].endswith('.type'):
+                    lab = e['label']
+                elif e['k'] == 'enter' and e['name'] in decs and lab is not None:
+                    by_type.setdefault(lab, set()).add(e['name'])
+                    lab = None
+        if len(by_type) >= 5:
+            break
+    names = {E['CAT_VAR_INT_DEC']: 'int', E['CAT_VAR_UINT_DEC']: 'uint', E['CAT_VAR_NUM_HEX']: 'hex',
+             E['CAT_VAR_BUF_HEX']: 'hexbuf', E['CAT_VAR_BUF_STRING']: 'string'}
+    done = 0
+    for tval, kind in names.items():
+        if kind not in kinds:
+            continue
+        fns = by_type.get(tval)
+        if not fns or len(fns) != 1:
+            raise AnalysisBroken('cannot tell which decoder serves variable type %s (%s)' % (kind, fns))
+        fname = next(iter(fns))
+        exq = dfa.Extractor(m, fname)
+        ref, regex = dfa.REFS[kind]
+        bad, npairs, ntr, nstates = dfa.compare(exq, ref)
+        done += 1
+        ctx.instance('grammar', ntr)
+        ctx.extra.setdefault('grammar', {})[kind] = {'decoder': fname, 'abstract_states': nstates, 'product_states': npairs, 'transitions_compared': ntr, 'language': regex}
+        for witness, msg in bad:
+            ctx.check('grammar', False, ctx.site(fname, m.fn_line(fname)),
+                      'after the text %r the %s decoder disagrees with the grammar %s: %s' % (witness.decode('latin1'), kind, regex, msg))
+        if not bad:
+            ctx.sample({'decoder': fname, 'language': regex, 'product_states': npairs, 'bytes_per_state': 256})
+    return done
